@@ -8,7 +8,7 @@ from lib import gen_db, gen_sol, refmodels
 from lib.runner import Result, V, scratch
 
 ID = "C03"
-CASE_TIMEOUT = 60
+CASE_TIMEOUT = 200
 RULE = ("model cases: gene (toy, CYP2A6, CYP2D6, GSTM1 or generated with pseudogene / fusions / deletion / custom deletions) x planted "
         "structure of 0-5 configurations (also ones the model cannot express) + additive noise <= 0.5 on a 0.01 grid x max copy number "
         "3-6 x gap in {0,0.1,0.3} x optional long-read fusion support around the documented cut, solved by solve_cn_model and compared "
@@ -222,9 +222,69 @@ def run_route(case):
     return Result(viol, labels, want == {"1": 1})
 
 
+SOLVER_BUCKETS = ("within-gap-structure-missing", "best-reported-not-optimal", "score-above-reference-without-shadowing",
+                  "score-is-no-explanation-of-structure", "no-structure-reported")
+
+
+def _cbc_itself_wrong(case):
+    """Recorded finding KF-CBC: re-run the case and, at every solve of aldy's model, hand the exported model (protobuf) to a FRESH CBC and to
+    SCIP through OR-Tools directly, bypassing aldy's solver wrapper.  True iff for some step both say optimal and CBC's objective is
+    worse than SCIP's: the backend, not aldy's model or enumeration, returned a sub-optimal point as optimal."""
+    from aldy import lpinterface
+    from ortools.linear_solver import pywraplp, linear_solver_pb2
+
+    orig = lpinterface.CBC.solve
+    protos = []
+
+    def solve(self, init=None):
+        try:
+            proto = linear_solver_pb2.MPModelProto()
+            self.model.ExportModelToProto(proto)
+            protos.append(proto.SerializeToString())
+        except Exception:  # noqa  (probe only)
+            pass
+        return orig(self, init)
+
+    lpinterface.CBC.solve = solve
+    try:
+        run_model(case)
+    finally:
+        lpinterface.CBC.solve = orig
+    # the steps that end an enumeration first (a premature end loses within-gap structures), then a sample of the others
+    order = list(range(len(protos) - 1, max(-1, len(protos) - 7), -1))
+    rest = [i for i in range(len(protos)) if i not in order]
+    order += rest[::max(1, len(rest) // 14)]
+    import time as _t
+
+    t0 = _t.time()
+    for i in order:
+        if _t.time() - t0 > 70:
+            break
+        proto = linear_solver_pb2.MPModelProto()
+        proto.ParseFromString(protos[i])
+        objs = {}
+        for be in ("CBC", "SCIP"):
+            s_ = pywraplp.Solver.CreateSolver(be)
+            s_.LoadModelFromProto(proto)
+            s_.SetTimeLimit(20000)
+            if s_.Solve() == pywraplp.Solver.OPTIMAL:
+                objs[be] = s_.Objective().Value()
+        if len(objs) == 2 and objs["CBC"] > objs["SCIP"] + 1e-6:
+            return dict(objs, step=i, steps=len(protos))
+    return None
+
+
 def run_case(case):
     if case["kind"] == "model":
-        return run_model(case)
+        res = run_model(case)
+        sv = [v for v in res.violations if v["bucket"].replace("second-call:", "") in SOLVER_BUCKETS]
+        if sv and len(sv) == len(res.violations):
+            wrong = _cbc_itself_wrong(case)
+            if wrong:
+                res.violations = [V("KF-CBC:backend-returns-suboptimal-point-as-optimal", original=[v["bucket"] for v in sv],
+                                    cbc=wrong["CBC"], scip=wrong["SCIP"], step=wrong["step"], steps=wrong["steps"], detail=sv[0]["detail"])]
+                res.labels.append("kf-cbc")
+        return res
     return run_route(case)
 
 
